@@ -90,7 +90,7 @@ func (p *Program) functionsFor(prop string) []string {
 	var out []string
 	for _, n := range p.CS.Order {
 		c := p.CS.Funcs[n]
-		if c.Kind == "extern" || c.Kind == "iface" || c.Kind == "callback" || c.Trusted || c.Inline {
+		if c.Kind == "extern" || c.Kind == "iface" || c.Kind == "callback" || (c.Trusted && !c.CheckCalls) || c.Inline {
 			continue
 		}
 		use := hasProp(c.Props, prop) || hasProp(c.NoPanicP, prop) || hasProp(c.FrameP, prop)
